@@ -68,8 +68,10 @@ def locus_of(b, case):
         return "%s %s" % (jsonfam.locus_str(loc), fam)
     if kind == "wrong-value":
         o = case["o"]
-        om = "+".join(k for k in ("omitnil", "omitempty") if o.get(k)) or "noomit"
-        return "%s %s %s" % ("/".join(str(x) for x in loc), fam, om if loc and str(loc[0]).startswith("obj") else "")
+        tag = "/".join(str(x) for x in loc)
+        if loc and str(loc[0]) in ("obj-missing-member", "obj-kept-omitted"):
+            tag += " " + ("+".join(k for k in ("omitnil", "omitempty") if o.get(k)) or "noomit")
+        return "%s %s" % (tag, fam)
     if kind == "text-differs":
         return "%s %s" % (" ".join(str(x) for x in loc), opt_class(case["o"]))
     return "%s %s" % ("/".join(str(x) for x in loc), fam)
